@@ -665,6 +665,10 @@ func shortFn(f *ssa.Function) string {
 func (e *Engine) safety(st *State, class string, instr ssa.Instruction, goal string) {
 	fr := st.top()
 	if fr.fc != nil && fr.fc.NoSafety {
+		// no obligation, but execution continues past this point only if the operation did not panic
+		if goal != "true" {
+			st.assume(goal)
+		}
 		return
 	}
 	pos := instr.Pos()
